@@ -162,6 +162,7 @@ pub fn coq_error_payload(e: &CompilationErrorPayload) -> Option<String> {
         CompilationErrorPayload::BadImport(s) => format!("(EBadImport {})", coq_str(s)),
         CompilationErrorPayload::AmbigousImport(s) => format!("(EAmbigousImport {})", coq_str(s)),
         CompilationErrorPayload::SuperLimitReached => "ESuperLimitReached".into(),
+        CompilationErrorPayload::TooManyUpvalues => "ETooManyUpvalues".into(),
         _ => return None,
     })
 }
